@@ -20,6 +20,17 @@ pub struct Case {
 pub fn gen_case(t: &mut Tape, tier: Tier) -> Option<Case> {
     let mut g = gen::gen_any_graph(t, tier);
     let pushed = if t.bool() { gen::push_to_boundary(t, &mut g) } else { None };
+    if t.chance(0.06) {
+        // weights of very different magnitude (all positive and finite, as the property demands)
+        let k = t.range(0, 18) as i32 - 6;
+        let ne_ = g.nedges();
+        let one = t.below(ne_ + 1);
+        for (e, w) in g.weights.iter_mut().enumerate() {
+            if one == ne_ || one == e {
+                *w *= 10f64.powi(k);
+            }
+        }
+    }
     Some(Case { g, pushed })
 }
 
@@ -38,8 +49,11 @@ fn check_d<const D: usize>(c: &Case, ctx: &mut Ctx) -> Result<(), Failure> {
             argmin = m;
         }
     }
-    let must_err = min_om < -1e-9;
-    let must_ok = min_om > 1e-9; // also true for single-edge graphs (no proper subsets)
+    // f64 cannot resolve omega better than the rounding of its own sums: widen the property's 1e-9 exclusion band
+    // by that rounding (only matters for weights of magnitude >= 1e5)
+    let band = 1e-9 + 8.0 * (ne as f64 + 2.0) * f64::EPSILON * (g.wsum_abs() + (nl * D) as f64);
+    let must_err = (1..full).any(|m| qf(&g.omega_q(m)) < -band);
+    let must_ok = min_om > band; // also true for single-edge graphs (no proper subsets)
     ctx.label(if must_err { "oracle:must-reject" } else if must_ok { "oracle:must-accept" } else { "oracle:boundary(either)" });
     if c.pushed.is_some() {
         ctx.label("weights:pushed-to-boundary");
